@@ -178,6 +178,17 @@ def _build(repo, outdir):
         if len(ent_c) < 10 or len(ent_x) < 10:
             raise BuildError('compile DB: library targets not found (nsync: %d units, nsync_cpp: %d units)' % (len(ent_c), len(ent_x)))
         jobs = []
+        # the tested binaries are built by gcc: let clang's front end report gcc's version in __GNUC__/__GNUC_MINOR__, so that
+        # version-guarded declarations (attributes such as const / returns_nonnull behind `#if __GNUC__ > 4 ...`) are seen as gcc sees them
+        GNUC = []
+        try:
+            gv = subprocess.run(['gcc', '-dumpfullversion'], stdout=subprocess.PIPE, stderr=subprocess.DEVNULL, text=True).stdout.strip()
+            if gv and gv[0].isdigit():
+                # clang 14 cannot parse the _FloatN declarations glibc enables for __GNUC__ >= 7, so the reported version is capped at 6.5.0
+                major = int(gv.split('.')[0])
+                GNUC = ['-fgnuc-version=' + (gv if major < 7 else '6.5.0')]
+        except Exception:
+            pass
         units = {'C': [], 'CXX': [], 'C11': []}
         def src_of(e):
             f = e['file']
@@ -195,17 +206,17 @@ def _build(repo, outdir):
             src = src_of(e)
             o = os.path.join(scratch, 'C_%d.bc' % k)
             jobs.append([CLANG, '-I' + os.path.join(repo, 'platform/gcc_new')] + fl +
-                        ['-O0', '-Xclang', '-disable-O0-optnone', '-g', '-emit-llvm', '-c', src, '-o', o, '-w'])
+                        GNUC + ['-O0', '-Xclang', '-disable-O0-optnone', '-g', '-emit-llvm', '-c', src, '-o', o, '-w'])
             units['C'].append((src, o))
             o2 = os.path.join(scratch, 'C11_%d.bc' % k)
             jobs.append([CLANG, '-DNSYNC_ATOMIC_C11', '-I' + os.path.join(repo, 'platform/c11')] + fl +
-                        ['-O0', '-Xclang', '-disable-O0-optnone', '-g', '-emit-llvm', '-c', src, '-o', o2, '-w'])
+                        GNUC + ['-O0', '-Xclang', '-disable-O0-optnone', '-g', '-emit-llvm', '-c', src, '-o', o2, '-w'])
             units['C11'].append((src, o2))
         for k, e in enumerate(ent_x):
             fl = _flags_from(e)
             src = src_of(e)
             o = os.path.join(scratch, 'CXX_%d.bc' % k)
-            jobs.append([CLANG, '-x', 'c++'] + fl + ['-O0', '-Xclang', '-disable-O0-optnone', '-g', '-emit-llvm', '-c', src, '-o', o, '-w'])
+            jobs.append([CLANG, '-x', 'c++'] + fl + GNUC + ['-O0', '-Xclang', '-disable-O0-optnone', '-g', '-emit-llvm', '-c', src, '-o', o, '-w'])
             units['CXX'].append((src, o))
         # probe TU (constants as the preprocessor sees them, C configuration)
         probe = os.path.join(scratch, 'probe.c')
